@@ -167,6 +167,46 @@ def native_real_csv():
                     failures.append(dict(key="header-limit-real-csv", what="text %r header %d limit %r: validate() raised %r, expected "
                                          "the error of row %r" % (text, header, limit, raised, None if first is None else first[1] + 1),
                                          args=dict(text=text, header=header, limit=limit)))
+    # spreadsheets: the header rows of the selected sheet are skipped (Sheet 2 with Header 1, Header 0, Header 2)
+    import os
+    import shutil
+    import tempfile
+    import xlsxwriter
+    from props.c15 import encode_document, write_ods
+    d = tempfile.mkdtemp(prefix="c07native")
+    try:
+        first = [["zz"], ["zz"], ["zz"], ["zz"]]
+        second = [["ab"], ["toolong"], ["cd"], ["x"]]
+        ods = os.path.join(d, "two.ods")
+        write_ods(ods, encode_document([("first", first), ("second", second)]))
+        xlsx = os.path.join(d, "two.xlsx")
+        wb = xlsxwriter.Workbook(xlsx)
+        for table in (first, second):
+            ws = wb.add_worksheet()
+            for y, row in enumerate(table):
+                ws.write_string(y, 0, row[0])
+        wb.close()
+        for fmt, path in (("ods", ods), ("excel", xlsx)):
+            for order in ("header-first", "sheet-first"):
+                for header in (0, 1, 2):
+                    for limit in (None, 1, 2, 3):
+                        n += 1
+                        props = ["d,header,%d" % header, "d,sheet,2"]
+                        if order == "sheet-first":
+                            props.reverse()
+                        cid = interface.create_cid_from_string("d,format,%s\n%s\nf,f0_t12,,,1...2,Text,\n" % (fmt, "\n".join(props)))
+                        exp = rf.ref_read(second, header, limit, keys)
+                        try:
+                            got = rf.observe(list(validio.rows(cid, path, on_error="yield", validate_until=limit)))
+                        except Exception as e:  # noqa
+                            failures.append(dict(key="header-limit-spreadsheet", what="%s, %s, header %d, limit %r raised %s: %s" % (
+                                fmt, order, header, limit, type(e).__name__, e), args=dict(fmt=fmt, header=header, limit=limit)))
+                            continue
+                        if not rf.same_output(got, exp):
+                            failures.append(dict(key="header-limit-spreadsheet", what="%s sheet 2 (%s), header %d, limit %r: got %r expected %r" % (
+                                fmt, order, header, limit, got, [e[:3] for e in exp]), args=dict(fmt=fmt, header=header, limit=limit)))
+    finally:
+        shutil.rmtree(d, ignore_errors=True)
     return dict(count=n, failures=failures, samples=[])
 
 
